@@ -10,7 +10,7 @@ LEVEL = "exploration"
 SHARDS = {"quick": 16, "thorough": 16}
 RULE = (
     "In one running process, generated sequences of events over a generated program: re-define a memento or plain function (any edit kind of C01: literals, nested constants, defaults, "
-    "set/tuple members, call-edge retarget, hide/unhide), rebind a tracked variable, mutate a list/dict (also a list held by a tuple) in place, define a function or variable that was referenced - by bare name or as a missing attribute of another module - but undefined (or bound to an opaque placeholder object) so far, move a function to another cluster, rebind a function's name to its underlying plain function and back to the saved memento object (plain assignments), replace a memento "
+    "set/tuple members, call-edge retarget, hide/unhide), rebind a tracked variable, mutate a list/dict (also a list held by a tuple) in place, define a function or variable that was referenced - by bare name or as a missing attribute of another module - but undefined (or bound to an opaque placeholder object) so far, move a function to another cluster, rebind a function's name to its underlying plain function and back to the saved memento object (plain assignments), re-bind a plain helper's name to a helper of identical text in the other module (which reads that module's variable of the same name), replace a memento "
     "function by a plain one and back, lock the clusters around a variable change, with a version query of every memento function after every event (or only at the end), plus queries through "
     "freshly created modifier clones (partial, force_local, with_context_args; asked either after or BEFORE the function they are cloned from), through fn_reference() and through an unregistered MementoFunction(fn, register_fn=False). Oracle: a fresh forked "
     "process builds the resulting program (the final namespace: latest definition of each name, each as its own cell, in definition order) and computes the versions. A query must succeed and equal the fresh value, except while the cluster is locked "
@@ -89,6 +89,8 @@ def _plan(case):
                 continue
             if info.get("stmt") and progs.find(p2, info["target"]).get("late"):
                 continue   # an in-place mutation of a variable that does not exist yet is not an event
+            if any(dd["k"] == "alias" and dd["target"] in info["cells"] for dd in p2["defs"]):
+                continue   # re-defining a function another name is bound to leaves two editions alive (no flat program)
             cells = []
             if info.get("stmt"):
                 cells.append([info["target_mod"], info["stmt"]])
@@ -116,7 +118,7 @@ def _plan(case):
         elif kind == "recluster":
             import copy
             p2 = copy.deepcopy(cur)
-            cands = [d for d in progs.fns(p2) if not d.get("late") and d["memento"] and d["name"] != case.get("clone_fn")]
+            cands = [d for d in progs.fns(p2) if not d.get("late") and d["memento"] and d["name"] != case.get("clone_fn") and not d.get("rname")]
             if not cands:
                 continue
             d = next((x for x in cands if x["name"] == ev.get("name")), None) or cands[ev.get("idx", 0) % len(cands)]
@@ -128,7 +130,7 @@ def _plan(case):
             # no definition is executed, only an assignment
             import copy
             p2 = copy.deepcopy(cur)
-            cands = [d for d in progs.fns(p2) if not d.get("late") and d["name"] != case.get("clone_fn") and (d["memento"] or d.get("unwrapped"))]
+            cands = [d for d in progs.fns(p2) if not d.get("late") and d["name"] != case.get("clone_fn") and (d["memento"] or d.get("unwrapped")) and not d.get("rname")]
             if not cands:
                 continue
             d = next((x for x in cands if x["name"] == ev.get("name")), None) or cands[ev.get("idx", 0) % len(cands)]
@@ -142,10 +144,22 @@ def _plan(case):
                 cell = "_verif_saved_%s = %s\n%s = %s.fn\n" % (d["name"], d["name"], d["name"], d["name"])
                 label = "rebind-to-plain-fn"
             steps.append({"prog": p2, "cells": [[d["mod"], cell]], "lock": None, "label": label, "applied": True})
+        elif kind == "rebind-twin":
+            # the name of a plain helper is re-bound (plain assignment) to the helper of identical text that lives in the
+            # other module and reads that module's variable of the same name
+            import copy
+            p2 = copy.deepcopy(cur)
+            h = next((dd for dd in p2["defs"] if dd["k"] == "fn" and dd["name"] == "h9" and not dd.get("late")), None)
+            tw = next((dd for dd in p2["defs"] if dd["k"] == "fn" and dd["name"] == "h9tw" and not dd.get("late")), None)
+            if h is None or tw is None:
+                continue
+            p2["defs"] = [dd for dd in p2["defs"] if dd is not h] + [{"k": "alias", "mod": h["mod"], "name": "h9", "target": "h9tw"}]
+            al = p2["defs"][-1]
+            steps.append({"prog": p2, "cells": [[al["mod"], progs.render_def(p2, al)]], "lock": None, "label": "rebind-to-twin-helper", "applied": True})
         elif kind == "swap":
             import copy
             p2 = copy.deepcopy(cur)
-            cands = [d for d in progs.fns(p2) if not d.get("late") and d["name"] != "f0"]
+            cands = [d for d in progs.fns(p2) if not d.get("late") and d["name"] != "f0" and not d.get("rname")]
             if not cands:
                 continue
             d = next((x for x in cands if x["name"] == ev.get("name")), None) or cands[ev.get("idx", 0) % len(cands)]
@@ -243,11 +257,12 @@ def strategy(thorough):
         st.builds(lambda e: {"ev": "lockedit", "edit": dict(e, kind="var")}, progs.edit_strategy()),
         st.builds(lambda e: {"ev": "edit", "edit": dict(e, kind="varmut")}, progs.edit_strategy()),
         st.builds(lambda i: {"ev": "define", "idx": i}, st.integers(0, 3)),
+        st.just({"ev": "rebind-twin"}),
     )
 
     @st.composite
     def case(draw):
-        p = draw(progs.program_strategy(max_fns=6 if thorough else 5, allow_alias=False, allow_explicit=False, allow_tuplist=True, allow_dictset=True))
+        p = draw(progs.program_strategy(max_fns=6 if thorough else 5, allow_alias=False, allow_explicit=False, allow_tuplist=True, allow_dictset=True, allow_twins=True))
         # some variables start undefined too (a function in another module then refers to a missing module attribute)
         for dd in p["defs"]:
             if dd["k"] == "var" and draw(st.integers(0, 3)) == 0:
